@@ -78,24 +78,27 @@ impl BDDSet {
 
     pub fn union(&self, other: &Self) -> &Self {
         let _self = self.bdd.borrow().clone();
-        self.bdd
-            .replace(self.env.or(_self, other.bdd.borrow().clone()));
+        // release the borrow of `other` before replacing: `other` may be `self`
+        let _other = other.bdd.borrow().clone();
+        self.bdd.replace(self.env.or(_self, _other));
         self
     }
 
     pub fn intersect(&self, other: &Self) -> &Self {
         let _self = self.bdd.borrow().clone();
+        // release the borrow of `other` before replacing: `other` may be `self`
+        let _other = other.bdd.borrow().clone();
 
-        self.bdd
-            .replace(self.env.and(_self, other.bdd.borrow().clone()));
+        self.bdd.replace(self.env.and(_self, _other));
         self
     }
 
     pub fn complement(&self, other: &Self) -> &Self {
         let new: Rc<BDD<usize>> = self.bdd.borrow().clone();
+        // release the borrow of `other` before replacing: `other` may be `self`
+        let _other = other.bdd.borrow().clone();
 
-        self.bdd
-            .replace(self.env.and(new, other.bdd.borrow().clone()));
+        self.bdd.replace(self.env.and(new, _other));
 
         self
     }
